@@ -449,6 +449,7 @@ class FnTrans:
                 else:
                     setv(ty, f"ie_{op[1:]}({a}, {b})")
                 return
+            if op == 'fdiv' and s.em.rename.get('__fdiv'): setv(ty, f"{s.em.rename['__fdiv']}({a}, {b})"); return
             if op == 'frem': setv(ty, f"fmod({a}, {b})")
             else: setv(ty, f"{a} {dict(fadd='+', fsub='-', fmul='*', fdiv='/')[op]} {b}")
             return
@@ -633,8 +634,8 @@ class FnTrans:
             if base in MATH1 and MODEL == 'ie': ret(f"ie_{base}({av[0]})"); return
             if base == 'fmuladd' and MODEL == 'ie': ret(f"ie_add(ie_mul({av[0]}, {av[1]}), {av[2]})"); return
             if base in MATH2 and MODEL == 'ie': ret(f"ie_{MATH2[base]}({av[0]}, {av[1]})"); return
-            if base in MATH1: ret(f"{MATH1[base]}{'f' if rty.k == 'float' else ''}({av[0]})"); return
-            if base in MATH2: ret(f"{MATH2[base]}{'f' if rty.k == 'float' else ''}({av[0]}, {av[1]})"); return
+            if base in MATH1: ret(f"{s.em.rename.get(MATH1[base], MATH1[base])}{'f' if rty.k == 'float' else ''}({av[0]})"); return
+            if base in MATH2: ret(f"{s.em.rename.get(MATH2[base], MATH2[base])}{'f' if rty.k == 'float' else ''}({av[0]}, {av[1]})"); return
             if base == 'fmuladd': ret(f"({av[0]} * {av[1]} + {av[2]})"); return
             if base in ('umax', 'umin'): ret(f"({av[0]} {'>' if base == 'umax' else '<'} {av[1]} ? {av[0]} : {av[1]})"); return
             if base in ('smax', 'smin'):
@@ -642,7 +643,7 @@ class FnTrans:
             if base == 'abs':
                 st = sint(width(rty)); ret(f"(({s.em.ctype(rty)})((({st}){av[0]}) < 0 ? -({st}){av[0]} : ({st}){av[0]}))"); return
             if base == 'bswap': ret(f"__builtin_bswap{rty.n}({av[0]})"); return
-            if base in ('lround', 'llround'): ret(f"(({s.em.ctype(rty)})llround({av[0]}))"); return
+            if base in ('lround', 'llround'): ret(f"(({s.em.ctype(rty)}){'ie_llround' if MODEL == 'ie' else s.em.rename.get('llround', 'llround')}({av[0]}))"); return
             if base == 'trap': O("  IR_TRAP();"); return
             if base in ('fshl', 'fshr'):
                 w = rty.n; a, b, c = av
